@@ -21,8 +21,8 @@ void bad(const std::string &sig, const std::string &msg) { violation(sig, msg); 
 struct Node { bool dir; size_t size; std::vector<Node> kids; };
 typedef std::vector<Node> Forest;
 // sibling names rotate through this list, starting at g_name_offset (every forest is built once per offset, so every name occurs at every position)
-const char *NAMES[] = {"a", "b c", ".h", "\xc3\xa9", "..a", "..."};
-const int NNAMES = 6;
+const char *NAMES[] = {"a", "b c", ".h", "\xc3\xa9", "..a", "...", "a-name-longer-than-any-small-string-buffer.ext"};
+const int NNAMES = 7;
 int g_name_offset = 0;
 const size_t SIZES[] = {0, 1, 4097};
 
@@ -305,7 +305,7 @@ void explore() {
             std::string dir = scratch + fmt("/t%d-%d", n, part); fs::create_directories(dir);
             for (size_t i = part; i < all.size(); i += parts) {
                 if (deadline_passed()) { shm->exhaustive = 0; return; }
-                for (int off : thorough() ? std::vector<int>{0, 1, 2, 3, 4, 5} : std::vector<int>{0, 2, 4}) {
+                for (int off : thorough() ? std::vector<int>{0, 1, 2, 3, 4, 5, 6} : std::vector<int>{0, 2, 4, 6}) {
                     if (all[i].empty() && off) continue;
                     g_name_offset = off;
                     mark(fmt("tree@%d ", off) + enc(all[i])); run_tree(all[i], dir);
@@ -320,7 +320,7 @@ void explore() {
     fs::current_path("/");
     fs::remove_all(scratch);
     shm->validated = shm->transitions;
-    sx::detail(fmt("every directory forest with at most %d entries, depth <= 3, at most 4 siblings, each entry a directory or a regular file of 0/1/4097 bytes, sibling names rotating through {a, 'b c', .h, e-acute, ..a, ...} from every second (thorough: every) starting offset; for every node and for missing siblings, "
+    sx::detail(fmt("every directory forest with at most %d entries, depth <= 3, at most 4 siblings, each entry a directory or a regular file of 0/1/4097 bytes, sibling names rotating through {a, 'b c', .h, e-acute, ..a, ..., a 46-character name} from every second (thorough: every) starting offset; for every node and for missing siblings, "
                    "by absolute path, relative path, './' prefix and trailing separator: exists/isFile/isDirectory/size/listChildren against std::filesystem; DirectoryVisitor for every directory (absolute, relative, nested, missing, unused, explicit restore); "
                    "working directories whose absolute path has a chosen total length (64..4085 bytes across the 255/256, 1024, 2048 boundaries and up to PATH_MAX; thorough: every length 60..4085): getWorkingDirectory, relative queries, DirectoryVisitor enter/restore/nesting; "
                    "string identities for every path of <= 3 segments over {a, b.c, ., .., 'x y', e-acute} with optional leading separator, 0-2 trailing separators and doubled inner separators", maxn));
